@@ -4,6 +4,7 @@ C18 — Numbers keep their exact value through the codec and are ordered by that
 import JsonbModel.Proofs.NumCodec
 import JsonbModel.Proofs.DecTotal
 import JsonbModel.Proofs.NumOrd
+import JsonbModel.Proofs.AsF64Neg
 
 namespace Jsonb.Props
 open Jsonb
@@ -98,5 +99,17 @@ example : Num.cmp (.uint 9007199254740993) (.float 0x4340000000000000) = .gt := 
 example : Num.cmp (.uint 9007199254740992) (.float 0x4340000000000000) = .eq := by decide
 
 example : (Num.int (-9223372036854775808)).WF ∧ (Num.float 0xFFF8000000000001).WF := by decide
+
+/-- **the f64 view of every i64 (negative ones too)** is the nearest double: it denotes the integer
+`irval i`, which is within half a unit in the last place of `i` (ties to even by construction of the
+rounding), equal to `i` up to 2^53 in magnitude; the view is monotone -/
+theorem C18_as_f64_int (i : Int) (hlo : -9223372036854775808 ≤ i) (hhi : i ≤ 9223372036854775807) :
+    (F64.val (Num.asF64 (.int i))).isInt (F64.irval i) ∧
+    2 * (F64.irval i - i) ≤ ((2 ^ (Nat.log2 i.natAbs - 52) : Nat) : Int) ∧
+    2 * (i - F64.irval i) ≤ ((2 ^ (Nat.log2 i.natAbs - 52) : Nat) : Int) ∧
+    (i.natAbs ≤ 9007199254740992 → F64.irval i = i) := Num.asF64_int i hlo hhi
+theorem C18_as_f64_int_monotone (i j : Int) (hij : i ≤ j)
+    (hlo : -9223372036854775808 ≤ i) (hhi : j ≤ 9223372036854775807) :
+    F64.ge (Num.asF64 (.int j)) (Num.asF64 (.int i)) = true := Num.asF64_int_mono i j hij hlo hhi
 
 end Jsonb.Props
